@@ -7,7 +7,8 @@
     and a well-typed one evaluates for every large enough fuel. [H_edges] and [H_marks]
     describe how compile.rs builds the graph and stores the flags; they are what the
     stratification tie observes on every accepted program. *)
-From Oal Require Import Eval Strat Cycles CyclesProofs InlineProofs RankProofs Typing TypingProofs TermProofs.
+From Oal Require Import Eval Strat Cycles CyclesProofs InlineProofs RankProofs UseEdges Typing TypingProofs TermProofs.
+From Oal Require EvalIO.
 From Coq Require Import Lia.
 
 Section Link.
@@ -58,3 +59,15 @@ Section Link.
       end.
   Proof. intros Hwt Hd Hr. apply (accepted_programs_evaluate E P rs Hwt). apply accepted_first_order_is_stratified; assumption. Qed.
 End Link.
+
+(** [H_edges] from the list of uses: it is enough that the graph contains the pairs of
+    [UseEdges.use_edges], which is what the tie compares with the graph the code builds *)
+Theorem accepted_is_acyclic_by_use_edges P referential scc (Hscc : scc_spec scc) (nu : N -> N -> N) ns g marks :
+  (forall x y, In (x, y) (EvalIO.use_edges P) -> In (nu (fst x) (snd x), nu (fst y) (snd y)) g) ->
+  (forall m i, In (nu m i) marks -> cutb P m i = true) ->
+  cycles_check referential scc (S (length g)) ns g [] = COk marks ->
+  ~ cyclic P.
+Proof.
+  intros He Hm Ha. apply (accepted_is_acyclic P referential scc Hscc nu ns g marks); try assumption.
+  intros x y Hxy. apply He, edge_in_use_edges, Hxy.
+Qed.
